@@ -416,11 +416,33 @@ def write_replay(prop, it, module):
         data['inputs'] = inputs
     with open(path, 'w') as f:
         json.dump(data, f, indent=1, default=repr)
-    if data.get('inputs') is not None:
-        res = run_replay(path)
-        data['replay'] = res
-        if res.get('verdict') == 'confirmed':
-            suffix = ''
+    if data.get('kind_of_check') is None:
+        # candidates: the solver's model first, then the contract's witness library; the first input
+        # on which the real code violates the executable contract becomes the replay
+        cands = []
+        if data.get('inputs') is not None:
+            cands.append((data.get('found_by', 'solver model'), data['inputs']))
+        fr = it.fr
+        if fr is not None and fr.contract.replay is not None:
+            for w in fr.contract.witness_library:
+                cands.append(('witness library', w))
+        tried = []
+        for origin, inp in cands:
+            data['inputs'] = inp
+            data['found_by'] = origin
+            with open(path, 'w') as f:
+                json.dump(data, f, indent=1, default=repr)
+            res = run_replay(path)
+            tried.append({'origin': origin, 'verdict': res.get('verdict')})
+            if res.get('verdict') == 'confirmed':
+                data['replay'] = res
+                suffix = ''
+                break
+        else:
+            if cands:
+                data['inputs'] = cands[0][1]
+                data['found_by'] = cands[0][0]
+        data['candidates_tried'] = tried
         with open(path, 'w') as f:
             json.dump(data, f, indent=1, default=repr)
     return path, suffix
